@@ -1027,3 +1027,42 @@ func (w *World) sendHook(fr *Frame, st *State, in *ssa.Send) {
 		}
 	}
 }
+
+// callOrdinal: the 1-based position, in source order, of the call at pos among
+// the calls in the outermost source function around fn (function literals
+// included) whose callee has the (unqualified) name; 0 if not found.
+func (w *World) callOrdinal(fn *ssa.Function, pos token.Pos, name string) int {
+	var ps []token.Pos
+	seen := map[token.Pos]bool{}
+	// counted over the outermost source function, function literals included
+	outer := fn
+	for outer.Parent() != nil {
+		outer = outer.Parent()
+	}
+	var walk func(f *ssa.Function)
+	walk = func(f *ssa.Function) {
+		for _, b := range f.Blocks {
+			for _, in := range b.Instrs {
+				ci, ok := in.(ssa.CallInstruction)
+				if !ok || lastCallName(ci.Common()) != name {
+					continue
+				}
+				if p := in.Pos(); p.IsValid() && !seen[p] {
+					seen[p] = true
+					ps = append(ps, p)
+				}
+			}
+		}
+		for _, a := range f.AnonFuncs {
+			walk(a)
+		}
+	}
+	walk(outer)
+	sort.Slice(ps, func(i, j int) bool { return ps[i] < ps[j] })
+	for i, p := range ps {
+		if p == pos {
+			return i + 1
+		}
+	}
+	return 0
+}
